@@ -180,6 +180,12 @@ def run_m_units(pid, tier, units, seed, ev, outcome):
                     nat = native_exec("\n".join(["exec lossy", "width %d" % cs["width"], "n %d" % cs["n"], "op add", "y %d" % cs["y"],
                                                  "known " + ",".join("%d:%d:%d" % tuple(x) for x in cs["known"])]) + "\n", vpath)
                     same = (not e.get("error")) and (not nat.get("error")) and (e["result"] == nat["result"]) and (e.get("n") == nat.get("n")) and (e.get("known") == nat.get("known"))
+                elif u["model"] == "qf":
+                    nat = native_exec("\n".join(["exec qf", "bq %d" % cs["bq"], "br %d" % cs["br"], "members " + ",".join("%d:%d" % tuple(x) for x in cs["members"]),
+                                                 "op insert", "y %d:%d" % tuple(cs["y"])]) + "\n", vpath)
+                    def norm(sl):
+                        return [[bool(a), bool(b), bool(c), (d if (a or b or c) else 0)] for a, b, c, d in sl]
+                    same = (not e.get("error")) and (not nat.get("error")) and (e["result"] == nat["result"]) and (e.get("len") == nat.get("len")) and (norm(e.get("slots", [])) == norm(nat.get("slots", [])))
                 else:
                     nat = native_exec("\n".join(["exec heap", "k %d" % cs["k"], "c %d" % cs["c"], "op add", "y %d" % cs["y"],
                                                  "map " + ",".join("%d:%d" % tuple(x) for x in cs["map"]), "tree " + ",".join("%d:%d" % tuple(x) for x in cs["tree"])]) + "\n", vpath)
